@@ -207,7 +207,7 @@ def rule_concatenate(ctx):
             if okn:
                 sub = newaxes[3][1]
                 okn = sub[0] == 'comp' and sub[3][0][1] == ('call', ('name', 'enumerate'), (('attr', ('sub', joined, const(0)), 'axes'),), ()) \
-                    and sub[3][0][2] == (('cmp', '!=', ('idx', ('attr', ('sub', joined, const(0)), 'axes'), sub[3][0][0]), AXIS),)
+                    and sub[3][0][2] == (T.mkcmp('!=', ('idx', ('attr', ('sub', joined, const(0)), 'axes'), sub[3][0][0]), AXIS),)
             if not okn:
                 ctx.violated('R3', fi, 'newaxes = ' + T.show(newaxes)[:160], 'result axes: the other axes of the first (normalised) array with the concatenated axis '
                              're-inserted at the same position k', node=p.node)
@@ -279,7 +279,7 @@ def rule_args(ctx):
     ctx.rule('R4', 'new axis name', 2)
     ctx.rule('R5', 'input forms', 3)
     fi = ctx.fn(AL + '_check_stack_axis')
-    ev = run(ctx, fi, facts={('cmp', 'is', AXIS, T.CONST_NONE): False})
+    ev = run(ctx, fi, facts={T.mkcmp('is', AXIS, T.CONST_NONE): False})
     DIMS = P_('dims')
     r_int = any(exc_name(p.value) == 'TypeError' and any('int' in T.show(a) and pol for a, pol in p.guards) for p in raise_paths(ev))
     r_dup = any(exc_name(p.value) == 'ValueError' and any(a == ('cmp', 'in', AXIS, DIMS) and pol for a, pol in p.guards) for p in raise_paths(ev))
